@@ -107,6 +107,26 @@ def mutants_of(src):
                 t = seg(lines, node.test)
                 if t:
                     out.append((node.lineno, node.col_offset, node.end_col_offset, '%s if %s else %s' % (o, t, b), 'ifexp-swapped', f))
+    # statements left out / conditions decided: a forgotten line, a branch that is always (never) taken
+    if os.environ.get('MUT_STMTS'):
+        out = []
+        for fn in ast.walk(tree):
+            if not isinstance(fn, ast.FunctionDef):
+                continue
+            for node in ast.walk(fn):
+                f = func_of.get(id(node), fn.name)
+                if isinstance(node, (ast.Assign, ast.AugAssign, ast.Expr)) and node.lineno == node.end_lineno:
+                    if isinstance(node, ast.Expr) and isinstance(node.value, ast.Constant):
+                        continue            # docstring
+                    out.append((node.lineno, node.col_offset, node.end_col_offset, 'pass', 'stmt-deleted', f))
+                elif isinstance(node, (ast.If, ast.While)) and node.test.lineno == node.test.end_lineno:
+                    t = node.test
+                    out.append((t.lineno, t.col_offset, t.end_col_offset, 'True', 'cond-true', f))
+                    out.append((t.lineno, t.col_offset, t.end_col_offset, 'False', 'cond-false', f))
+                elif isinstance(node, ast.Return) and node.value is not None and node.lineno == node.end_lineno \
+                        and isinstance(node.value, (ast.BinOp, ast.Call)) and isinstance(getattr(node.value, 'left', None), ast.Name):
+                    v = node.value
+                    out.append((v.lineno, v.col_offset, v.end_col_offset, v.left.id, 'return-left-operand', f))
     res = []
     for ln, c0, c1, new, kind, f in out:
         old_line = lines[ln - 1]
